@@ -168,8 +168,15 @@ def check(item, tier):
         def bad(kind, detail):
             r.violation(kind, detail, item)
         # ---------------- QMDP
+        # planner objects are reusable: the same QMDP / PBVI instances first plan a sibling POMDP with the same
+        # names and discount but different rewards (and one more absorbing state)
+        sib_T = tuple(tuple((a, d, (tuple(2 - x for x in rw) if isinstance(rw, tuple) else 2 - rw)) for a, d, rw in row) for row in pitem[1][2])
+        sib_item = ('pomdp', pitem[1][:2] + (sib_T, tuple(sorted(set(pitem[1][3]) | {n - 1}))) + pitem[1][4:], pitem[2])
+        sibling = SpecPOMDP(PSpec(sib_item), SLAB[li], ALAB[li], OLAB[oi_])
         try:
-            q = QMDP().plan_on(pomdp)
+            qplanner = QMDP()
+            qplanner.plan_on(sibling)
+            q = qplanner.plan_on(pomdp)
         except Exception as e:
             bad('qmdp_exception', {'error': repr(e)[:300]})
             q = None
@@ -208,8 +215,15 @@ def check(item, tier):
                 return out
             pb.point_based_value_iteration = wrapped
             try:
-                res = pb.PointBasedValueIteration(min_belief_expansions=minexp, max_belief_expansions=minexp + 4,
-                                                  value_convergence_epsilon=eps, horizon=horizon).plan_on(pomdp)
+                planner = pb.PointBasedValueIteration(min_belief_expansions=minexp, max_belief_expansions=minexp + 4,
+                                                      value_convergence_epsilon=eps, horizon=horizon)
+                if (hi + mi) % 2 == 0:
+                    try:
+                        planner.plan_on(sibling)
+                    except Exception:
+                        pass
+                    del calls[:]
+                res = planner.plan_on(pomdp)
             except Exception as e:
                 bad('pbvi_exception', dict(ctx, error=repr(e)[:300]))
                 continue
